@@ -274,6 +274,13 @@ def for_with_invariant(it, node, fr, seq, lc, k):
     else:
         extra['idx'] = n
         ctx.assume(it.truth(run_clause(it, lc.invariant, fr, extra)))
+        # Python leaves the loop variable at the last element: known when the length is concrete
+        if isinstance(n, int) and n >= 1 and enum_start is None:
+            try:
+                x = seq.at(it, n - 1) if isinstance(seq, SRange) else it.getitem(seq, n - 1)
+                it.assign(node.target, x, fr)
+            except Exception:
+                pass
         return
 
 
